@@ -410,8 +410,134 @@ fn process_one(line: &str) -> String {
     )
 }
 
+/// `extract <out.tsv> <file.rs>...`: every item carrying an entrait attribute in the given source
+/// files (the repository's own tests, examples and documentation) becomes a case, so that the
+/// repository's own usage is part of every correspondence run.
+mod extract {
+    use quote::ToTokens;
+    use syn::visit::Visit;
+
+    pub struct Finder {
+        pub out: Vec<(String, String, String, String)>, // (kind, variant, attr, item)
+    }
+
+    fn variant_of(path: &syn::Path) -> Option<&'static str> {
+        let last = path.segments.last()?.ident.to_string();
+        match last.as_str() {
+            "entrait" => Some("plain"),
+            "entrait_export" => Some("export"),
+            "entrait_unimock" => Some("unimock"),
+            "entrait_export_unimock" => Some("export_unimock"),
+            _ => None,
+        }
+    }
+
+    impl Finder {
+        fn take(&mut self, kind: &str, attrs: &[syn::Attribute], strip: impl Fn(Vec<syn::Attribute>) -> String) {
+            for (k, a) in attrs.iter().enumerate() {
+                if let Some(v) = variant_of(a.path()) {
+                    let args = match &a.meta {
+                        syn::Meta::List(l) => l.tokens.to_string(),
+                        _ => String::new(),
+                    };
+                    // attributes above entrait are expanded before it and are not its input
+                    let below: Vec<syn::Attribute> = attrs[k + 1..].to_vec();
+                    let item = strip(below).replace('\n', " ").replace('\t', " ");
+                    self.out.push((kind.to_string(), v.to_string(), args.replace('\n', " ").replace('\t', " "), item));
+                    break;
+                }
+            }
+        }
+    }
+
+    impl<'ast> Visit<'ast> for Finder {
+        fn visit_item_fn(&mut self, i: &'ast syn::ItemFn) {
+            self.take("fn", &i.attrs, |below| { let mut c = i.clone(); c.attrs = below; c.to_token_stream().to_string() });
+            syn::visit::visit_item_fn(self, i);
+        }
+        fn visit_item_mod(&mut self, i: &'ast syn::ItemMod) {
+            self.take("mod", &i.attrs, |below| { let mut c = i.clone(); c.attrs = below; c.to_token_stream().to_string() });
+            syn::visit::visit_item_mod(self, i);
+        }
+        fn visit_item_trait(&mut self, i: &'ast syn::ItemTrait) {
+            self.take("trait", &i.attrs, |below| { let mut c = i.clone(); c.attrs = below; c.to_token_stream().to_string() });
+            syn::visit::visit_item_trait(self, i);
+        }
+        fn visit_item_impl(&mut self, i: &'ast syn::ItemImpl) {
+            self.take("impl", &i.attrs, |below| { let mut c = i.clone(); c.attrs = below; c.to_token_stream().to_string() });
+            syn::visit::visit_item_impl(self, i);
+        }
+    }
+
+    /// Rust code inside documentation comments (```rust fenced blocks of `//!` / `///` lines and of markdown files)
+    pub fn doc_blocks(text: &str, markdown: bool) -> Vec<String> {
+        let mut blocks = vec![];
+        let mut cur: Option<String> = None;
+        for line in text.lines() {
+            let l = if markdown {
+                Some(line.to_string())
+            } else {
+                let t = line.trim_start();
+                t.strip_prefix("//!").or_else(|| t.strip_prefix("///")).map(|s| s.to_string())
+            };
+            let Some(l) = l else { cur = None; continue };
+            let body = l.strip_prefix(' ').unwrap_or(&l).to_string();
+            if body.trim_start().starts_with("```") {
+                match cur.take() {
+                    Some(b) => blocks.push(b),
+                    None => {
+                        let tag = body.trim_start().trim_start_matches('`').trim();
+                        if tag.is_empty() || tag.starts_with("rust") || tag == "no_run" || tag == "ignore" {
+                            cur = Some(String::new());
+                        }
+                    }
+                }
+            } else if let Some(b) = cur.as_mut() {
+                // hidden doctest lines
+                let shown = body.strip_prefix("# ").unwrap_or(if body == "#" { "" } else { &body });
+                b.push_str(shown);
+                b.push('\n');
+            }
+        }
+        blocks
+    }
+
+    pub fn run(out: &str, files: &[String]) {
+        let mut finder = Finder { out: vec![] };
+        for f in files {
+            let Ok(text) = std::fs::read_to_string(f) else { continue };
+            let mut sources = vec![];
+            if f.ends_with(".md") {
+                sources.extend(doc_blocks(&text, true));
+            } else {
+                sources.push(text.clone());
+                sources.extend(doc_blocks(&text, false));
+            }
+            for src in sources {
+                if let Ok(file) = syn::parse_file(&src) {
+                    finder.visit_file(&file);
+                } else if let Ok(file) = syn::parse_file(&format!("fn __doc() {{ {} }}", src)) {
+                    finder.visit_file(&file);
+                }
+            }
+        }
+        let mut seen = std::collections::BTreeSet::new();
+        let mut w = String::new();
+        for (kind, v, attr, item) in finder.out {
+            if seen.insert((v.clone(), attr.clone(), item.clone())) {
+                w.push_str(&format!("{}\t{}\t{}\t{}\t\n", kind, v, attr, item));
+            }
+        }
+        std::fs::write(out, w).expect("write extracted cases");
+    }
+}
+
 fn main() {
     let args: Vec<String> = std::env::args().collect();
+    if args.len() >= 3 && args[1] == "extract" {
+        extract::run(&args[2], &args[3..]);
+        return;
+    }
     if args.len() < 3 {
         eprintln!("usage: {} <cases.tsv> <out.cases> [threads]", args[0]);
         std::process::exit(2);
